@@ -24,6 +24,36 @@ let parse_call (s : string) : Robust_ext.wcall =
   | ["c"; rg; ft] -> Robust_ext.CClose (bytes_of_hex rg, bytes_of_hex ft)
   | _ -> failwith "bad call"
 
+
+(* "has,type,tl;..."  "i,j,..."  "hasmeta,type;...|..."  ->  file_meta *)
+let parse_meta (sch : string) (lv : string) (rgs : string) : Robust_ext.file_meta =
+  let ints s = List.map int_of_string (String.split_on_char ',' s) in
+  let schema = if sch = "-" || sch = "" then [] else List.map (fun e -> match ints e with
+      | [h; t; tl] -> { Robust_ext.se_has_type = (h = 1); se_type = z_of_int t; se_type_length = z_of_int tl; se_num_children = Z0 }
+      | _ -> failwith "bad schema elem") (String.split_on_char ';' sch) in
+  let leaves = if lv = "-" || lv = "" then [] else List.map nat_of_int (ints lv) in
+  let groups = if rgs = "" || rgs = "none" then [] else List.map (fun g ->
+      let cols = if g = "-" || g = "" then [] else List.map (fun c -> match ints c with
+          | [h; t] -> { Robust_ext.cc_has_metadata = (h = 1);
+                        cc_meta = { Robust_ext.cm_type = z_of_int t; cm_codec = Z0; cm_num_values = Z0; cm_data_page_offset = Z0;
+                                    cm_has_dict_offset = false; cm_dict_page_offset = Z0 } }
+          | _ -> failwith "bad chunk") (String.split_on_char ';' g) in
+      { Robust_ext.rg_columns = cols; rg_num_rows = Z0 }) (String.split_on_char '|' rgs) in
+  { Robust_ext.fm_schema = schema; fm_row_groups = groups; fm_leaves = leaves }
+
+(* the page-header parser's verdict, as observed on the implementation: "none" | "<status>" | "0/hs/type/usize/csize/crc/nv/enc/dnv" *)
+let hdr_of (s : string) : n list -> Robust_ext.hdr_result =
+  match String.split_on_char '/' s with
+  | ["0"; hs; ty; us; cs; crc; nv; enc; dnv] ->
+      let h = { Robust_ext.ph_type = z_of_int (int_of_string ty); ph_usize = z_of_int (int_of_string us);
+                ph_csize = z_of_int (int_of_string cs); ph_has_crc = (crc = "1"); ph_num_values = z_of_int (int_of_string nv);
+                ph_encoding = z_of_int (int_of_string enc); ph_dict_num_values = z_of_int (int_of_string dnv) } in
+      (fun _ -> Robust_ext.HdrOk (h, nat_of_int (int_of_string hs)))
+  | [st] when st <> "none" ->
+      let c = int_of_string st in
+      if c = 33 then (fun _ -> Robust_ext.HdrShort) else (fun _ -> Robust_ext.HdrErr (z_of_int c))
+  | _ -> (fun _ -> Robust_ext.HdrShort)
+
 let handle toks =
   match toks with
   | ["opencuts"; from_; to_; data] ->
@@ -66,5 +96,51 @@ let handle toks =
       Printf.sprintf "OK st=%s sinkfail=%d n=%d fnv=%s want=%s"
         (String.concat "," (List.map (fun s -> string_of_int (int_of_z s)) ss))
         (if Robust_ext.sink_failed w' then 1 else 0) (List.length d) (fnv1a d) (fnv1a (Robust_ext.bytes_of h))
+  | ["getcol"; chk; sch; lv; rgs; rg; col] ->
+      let m = parse_meta sch lv rgs in
+      let ck = if chk = "pinned" then Robust_ext.pinned_pchecks else Robust_ext.current_pchecks in
+      (match Robust_ext.get_column ck m (z_of_int (int_of_string rg)) (z_of_int (int_of_string col)) with
+       | Robust_ext.Ok r -> Printf.sprintf "OK type=%d schema=%d tl=%d" (int_of_z r.Robust_ext.cr_type)
+                              (int_of_z r.Robust_ext.cr_schema_type) (int_of_z r.Robust_ext.cr_type_length)
+       | Robust_ext.Err c -> Printf.sprintf "E%d" (int_of_z c)
+       | Robust_ext.Fault _ -> "FAULT")
+  | ["firstload"; chk; path; n; t; d; h1; h2] ->
+      let ck = if chk = "pinned" then Robust_ext.pinned_pchecks else Robust_ext.current_pchecks in
+      let p = if path = "stdio" then Robust_ext.Stdio else Robust_ext.Mapped in
+      let f = List.init (int_of_string n) (fun _ -> N0) in
+      let ti = List.map int_of_string (String.split_on_char ',' t) in
+      let di = String.split_on_char ',' d in
+      (match ti, di with
+       | [ctype; stype; tl; codec; maxdef; maxrep], [hasdict; dictoff; dataoff] ->
+         let hasdict = int_of_string hasdict in
+         let dictoff = z_of_shex dictoff and dataoff = z_of_shex dataoff in
+         let cm = { Robust_ext.cm_type = z_of_int ctype; cm_codec = z_of_int codec; cm_num_values = Z0;
+                    cm_data_page_offset = dataoff; cm_has_dict_offset = (hasdict = 1);
+                    cm_dict_page_offset = dictoff } in
+         let r = { Robust_ext.cr_type = z_of_int ctype; cr_type_length = z_of_int tl; cr_schema_type = z_of_int stype; cr_meta = cm } in
+         let cls = function Robust_ext.Ok _ -> "OK" | Robust_ext.Err c -> Printf.sprintf "E%d" (int_of_z c) | Robust_ext.Fault _ -> "FAULT" in
+         let has_levels = maxdef > 0 || maxrep > 0 in
+         let data_stage hdr off =
+           let s = Robust_ext.load (hdr_of hdr) ck p Robust_ext.DataPage f off in
+           let view = (match s with
+             | Robust_ext.Ok l when path <> "stdio" -> cls (Robust_ext.mapped_data_page ck r l has_levels)
+             | _ -> "-") in
+           (cls s, view) in
+         if hasdict = 1 then begin
+           let s1 = Robust_ext.load (hdr_of h1) ck p Robust_ext.DictPage f dictoff in
+           match s1 with
+           | Robust_ext.Ok l1 ->
+               let hdr = l1.Robust_ext.ld_header in
+               let body_len = l1.Robust_ext.ld_body.Robust_ext.r_len in
+               let dict = if ctype <> 6 && codec = 0 then cls (Robust_ext.dictionary_copy ck r hdr.Robust_ext.ph_dict_num_values body_len) else "-" in
+               let off2 = Robust_ext.Z.add (Robust_ext.Z.add dictoff l1.Robust_ext.ld_hs) body_len in
+               let (s2, view) = if h2 = "none" then ("-", "-") else data_stage h2 off2 in
+               Printf.sprintf "first=OK dict=%s second=%s view=%s" dict s2 view
+           | _ -> Printf.sprintf "first=%s dict=- second=- view=-" (cls s1)
+         end else begin
+           let (s1, view) = data_stage h1 dataoff in
+           Printf.sprintf "first=%s dict=- second=- view=%s" s1 view
+         end
+       | _ -> "RUNNER-ERROR bad-firstload")
   | _ -> "RUNNER-ERROR unknown-op"
 let () = main_loop handle
